@@ -7,10 +7,16 @@ EXTENDS Term, Json, IOUtils
    id resets the terminal. *)
 Trace == ndJsonDeserialize(IOEnv.TERM_TRACE)
 
-VARIABLES l, tt, tpers, tr, bad
-tvars == <<l, tt, tpers, tr, bad>>
+VARIABLES l, tt, tpers, tr, bad, base
+tvars == <<l, tt, tpers, tr, bad, base>>
 
-TInit == l = 1 /\ tt = NewTerm(1) /\ tpers = <<>> /\ tr = "" /\ bad = <<>>
+TInit == l = 1 /\ tt = NewTerm(1) /\ tpers = <<>> /\ tr = "" /\ bad = <<>> /\ base = [x \in {} |-> ""]
+
+(* a bar row is on the terminal at most once: as a current row or as the one persisted copy of a popped bar *)
+DupBases(t, bm) ==
+  LET A == Above(t)
+      idx == {i \in DOMAIN A : A[i] \in DOMAIN bm /\ bm[A[i]] # ""} IN
+  {bm[A[i]] : i \in {j \in idx : \E k \in idx : k # j /\ bm[A[k]] = bm[A[j]]}}
 
 TNext ==
   \/ /\ l <= Len(Trace)
@@ -23,17 +29,23 @@ TNext ==
             keep  == SelectSeq(e.lines, LAMBDA x : x.persist)
             want  == p0 \o all
             B(rule, info) == [tr |-> e.tr, k |-> e.k, r |-> rule, info |-> info]
+            bm0   == IF fresh THEN [x \in {} |-> ""] ELSE base
+            bm    == [x \in DOMAIN bm0 \cup {e.lines[i].s : i \in DOMAIN e.lines} |->
+                        IF \E i \in DOMAIN e.lines : e.lines[i].s = x
+                        THEN e.lines[CHOOSE i \in DOMAIN e.lines : e.lines[i].s = x].base ELSE bm0[x]]
         IN /\ tt' = t2
            /\ tpers' = p0 \o [i \in DOMAIN keep |-> keep[i].s]
            /\ tr' = e.tr
+           /\ base' = bm
            /\ bad' = bad
-                \o (IF Above(t2) # want THEN <<B("not-in-place", ToString(<<Above(t2), want>>))>> ELSE <<>>)
+                \o (IF e.exact /\ Above(t2) # want THEN <<B("not-in-place", ToString(<<Above(t2), want>>))>> ELSE <<>>)
+                \o (IF DupBases(t2, bm) # {} THEN <<B("row-on-screen-twice", ToString(DupBases(t2, bm)))>> ELSE <<>>)
                 \o (IF e.nrows > e.h THEN <<B("frame-higher-than-terminal", ToString(e.nrows))>> ELSE <<>>)
                 \o (IF e.maxw > e.w THEN <<B("line-wider-than-terminal", ToString(e.maxw))>> ELSE <<>>)
      /\ l' = l + 1
   \/ /\ l = Len(Trace) + 1
      /\ JsonSerialize(IOEnv.TERM_OUT, bad)
-     /\ l' = l + 1 /\ UNCHANGED <<tt, tpers, tr, bad>>
+     /\ l' = l + 1 /\ UNCHANGED <<tt, tpers, tr, bad, base>>
 
 TSpec == TInit /\ [][TNext]_tvars
 TConsumed == TLCGet("stats").diameter >= Len(Trace) + 2
